@@ -75,6 +75,8 @@ def main():
             meta["checks_run"] = {c: r for c, r in out.items()}
             if "_error" in out:
                 meta["status"] = out["_error"]
+            elif meta.get("status") == "patch does not apply to the current tree":
+                meta.pop("status")
             json.dump(meta, open(mp, "w"), indent=1)
     lines = ["# Seeded changes vs quick checks", "",
              "Each seed applied in a scratch worktree of /repo HEAD (tools/seedrun.sh); rc=1 = detected (VIOLATION), "
